@@ -39,6 +39,12 @@ TARGETS = [
     ("metrics/distances.py", ["lp_dist", "profiles_to_ndarrys"], ["C19"]),
     ("graphs/ballot_graph.py", ["build_graph", "_relabel", "from_profile", "fix_short_ballot"], ["C19"]),
     ("pref_interval.py", None, ["C15"]),
+    ("ballot_generator.py", ["sample_cohesion_ballot_types", "slate_PlackettLuce", "name_PlackettLuce", "short_name_PlackettLuce", "name_Cumulative"], ["C16", "C14"]),
+    ("ballot_generator.py", ["name_BradleyTerry", "slate_BradleyTerry"], ["C15", "C16", "C14"]),
+    ("ballot_generator.py", ["AlternatingCrossover", "CambridgeSampler", "BallotSimplex", "ImpartialCulture", "ballot_pool_to_profile"], ["C16", "C14"]),
+    ("ballot_generator.py", ["OneDimSpatial", "Spatial", "ClusteredSpatial"], ["C16", "C14"]),
+    ("utils.py", ["ballots_by_first_cand"], ["C02"]),
+    (E + "scores/rating.py", ["__init__"], ["C20"]),
 ]
 
 CMP = {ast.GtE: ast.Gt, ast.Gt: ast.GtE, ast.LtE: ast.Lt, ast.Lt: ast.LtE, ast.Eq: ast.NotEq, ast.NotEq: ast.Eq}
@@ -161,7 +167,10 @@ def main():
             orig = open(path).read()
             for m in mutants(path, names, rng, per):
                 open(os.path.join(dst, "src/votekit", rel), "w").write(m["src"])
-                for c in checks[:1] if per > 0 else checks:
+                killed = False
+                for c in checks:
+                    if killed:
+                        break          # reported by an earlier mapped check: no need to ask the others
                     key = (rel, m["line"], m["kind"], m["before"], c)
                     if key in done:
                         continue
@@ -179,6 +188,7 @@ def main():
                     with open(out, "a") as f:
                         f.write(json.dumps(rec) + "\n")
                     print(json.dumps({k: rec[k] for k in ("file", "line", "kind", "before", "after", "check", "exit")}), flush=True)
+                    killed = rc == 1
                 open(os.path.join(dst, "src/votekit", rel), "w").write(orig)
     finally:
         shutil.rmtree(dst, ignore_errors=True)
